@@ -346,6 +346,29 @@ func mutateBytes(r *rand.Rand, b []byte) []byte {
 	return b
 }
 
+// pairInput builds one input for pair k from a private seed (so that it can be rebuilt inside Exec).
+func pairInput(k int, gseed uint64) []byte {
+	r := rand.New(rand.NewPCG(gseed, 0xfeed))
+	ps := pairs()
+	src := ps[k].a
+	if r.IntN(2) == 0 {
+		src = ps[k].b
+	}
+	m := src.ProtoReflect().Type().New()
+	fillRandom(r, m, 2)
+	b, err := proto.MarshalOptions{AllowPartial: true}.Marshal(m.Interface())
+	if err != nil {
+		b = nil // e.g. invalid UTF-8 in a validated string: still an interesting input after mutation
+	}
+	for t := r.IntN(3); t > 0; t-- {
+		b = mutateBytes(r, b)
+	}
+	if len(b) > 4000 {
+		b = b[:4000]
+	}
+	return b
+}
+
 func genPair(r *rand.Rand, n int, emit func(core.Case)) {
 	ps := pairs()
 	for i := 0; i < n; i++ {
@@ -353,24 +376,25 @@ func genPair(r *rand.Rand, n int, emit func(core.Case)) {
 		if r.IntN(2) == 0 {
 			k = r.IntN(2)
 		}
-		src := ps[k].a
-		if r.IntN(2) == 0 {
-			src = ps[k].b
-		}
-		m := src.ProtoReflect().Type().New()
-		fillRandom(r, m, 2)
-		b, err := proto.MarshalOptions{AllowPartial: true}.Marshal(m.Interface())
-		if err != nil {
-			b = nil // e.g. invalid UTF-8 in a validated string: still an interesting input after mutation
-		}
-		for t := r.IntN(3); t > 0; t-- {
-			b = mutateBytes(r, b)
-		}
-		if len(b) > 4000 {
-			b = b[:4000]
+		gseed := r.Uint64() >> 34
+		var b []byte
+		ok := func() (ok bool) {
+			defer func() { ok = recover() == nil }()
+			b = pairInput(k, gseed)
+			return true
+		}()
+		if !ok {
+			// building the input through the reflection API panicked: let Exec reproduce and report it
+			emit(core.Case{"op": "pairgen", "pair": k, "gseed": int(gseed)})
+			continue
 		}
 		emit(core.Case{"op": "pair", "pair": k, "strict": strictPair(k), "b": core.B(b)})
 	}
+}
+
+func execPairGen(c core.Case, out core.Case) {
+	b := pairInput(core.Int(c["pair"]), uint64(core.Int(c["gseed"])))
+	out["len"] = len(b)
 }
 
 // ---- edition defaults (C38, first half, base case)
